@@ -564,7 +564,16 @@ def _handlers(out: list[str], rec: dict[str, tuple]) -> None:
     # count the store_stage-with-blocks following the first `self.set_stage_status(stage, status)` in on_stage
     n_with_store = 0
     n_with_store_rec = 0
+    n_reg = n_reg_rec = 0
     first_set = None
+    par = _parents(mod)
+
+    def in_except(n):
+        while n in par:
+            n = par[n]
+            if isinstance(n, ast.ExceptHandler):
+                return True
+        return False
     for n in ast.walk(mod):
         if isinstance(n, ast.Call) and ast.unparse(n) == "self.set_stage_status(stage, status)":
             first_set = n.lineno if first_set is None else min(first_set, n.lineno)
@@ -574,10 +583,15 @@ def _handlers(out: list[str], rec: dict[str, tuple]) -> None:
         if _is_txn_with(n) and n.lineno > first_set:
             txt = ast.unparse(n)
             if "txn.store_stage(stage)" in txt:
+                rec_here = "self._record_completion_event(stage, " in txt
                 n_with_store += 1
-                if "self._record_completion_event(stage, status)" in txt:
-                    n_with_store_rec += 1
-    out.append(f"(* {rel}: {n_with_store} transaction blocks store the completed stage, {n_with_store_rec} of them record the event *)")
+                n_with_store_rec += rec_here
+                if not in_except(n):
+                    n_reg += 1
+                    n_reg_rec += rec_here
+    out.append(f"(* {rel}: {n_with_store} transaction blocks store the completed stage ({n_reg} outside the `except Exception` "
+               f"handler), {n_with_store_rec} ({n_reg_rec}) of them record the event *)")
+    out.append(f"Definition complete_stage_regular_store_records : bool := {_b(n_reg > 0 and n_reg == n_reg_rec)}.")
     out.append(f"Definition complete_stage_every_store_records : bool := {_b(n_with_store > 0 and n_with_store == n_with_store_rec)}.")
 
     # ---- complete_task: likewise every block storing the completed task records
